@@ -27,7 +27,7 @@ def models(tier, seed):
     return ms
 
 
-KINDS = ['plain', 'plain', 'timer', 'repeat', 'oa', 'of', 'vp', 'ia', 'slowstop', 'cb', 'trig']
+KINDS = ['plain', 'plain', 'pplain', 'timer', 'repeat', 'oa', 'of', 'vp', 'ia', 'slowstop', 'cb', 'trig']
 
 
 def rand_blocks(rnd, n=None, fault=True):
@@ -40,6 +40,8 @@ def rand_blocks(rnd, n=None, fault=True):
             conf.update(mode=rnd.choice('wcs'), dur=rnd.choice([0, 1, 3]), sd=rnd.random() < 0.5)
         elif k == 'of':
             conf.update(sd=rnd.random() < 0.6)
+        elif k == 'pplain':
+            conf.update(sync=rnd.random() < 0.7)     # (persistent: its state is saved before the clean-up)
         elif k == 'vp':
             conf.update(idur=rnd.choice([0, 2, 6]), itmo=rnd.choice([4, 8]))
         elif k == 'ia':
@@ -62,7 +64,7 @@ def rand_blocks(rnd, n=None, fault=True):
         b = rnd.randrange(n)
         k = blocks[b]['kind']
         opts = ['start', 'stop']
-        if k in ('plain', 'trig'):
+        if k in ('plain', 'pplain', 'trig'):
             opts += ['init_regular', 'handler', 'handler']
         if k == 'cb':
             opts = ['eval']
@@ -119,7 +121,7 @@ def rand_stim(rnd, check):
     actions = []
     # some activity: external events to plain blocks, triggers of handler / eval faults
     for i, b in enumerate(blocks, 1):
-        if b['kind'] in ('plain', 'slowstop') and b.get('fault') != 'init_regular' and rnd.random() < 0.5:
+        if b['kind'] in ('plain', 'pplain', 'slowstop') and b.get('fault') != 'init_regular' and rnd.random() < 0.5:
             actions.append({'t': rnd.choice([0, 1, 5, 10]), 'yields': rnd.randint(0, 3), 'op': 'ext', 'dest': i,
                             'shape': {'value': rnd.randint(1, 5)}})
         if b.get('fault') in ('handler', 'eval'):
